@@ -229,7 +229,9 @@ func (s *fsm12) finish(ctx context.Context, c Conn) (State, error) {
 	select {
 	case state := <-c.RecvHandshake():
 		close(state.Done)
-		if s.state.IsClient {
+		if s.state.IsClient || !state.IsRetransmit {
+			// Only a retransmission of the peer's last flight shows that our
+			// final flight was lost; anything else must not trigger a resend.
 			return StateFinished, nil
 		}
 
